@@ -72,6 +72,14 @@ def judge_forms(ctx, op, forms, ref, exp, wit, exact=True, scale=1.0, charge=Non
                 ctx.violation(f"{op}-value", f"{op} via {name}: differs from dense, max|diff| {cmp.maxdiff(got, exp)}", w)
             continue
         m = cmp.compare_array(res, ref, exp, exact, scale, rtol)
+        if not m and is_array(res):
+            # "the block form of the dense result": the blocks must sit in sectors the result's
+            # OWN indices list (the comparison above places them by the reference layout)
+            from symv.audit import audit as _audit
+
+            ea = _audit(res)
+            if ea:
+                m = "index structure: " + "; ".join(ea[:2])
         if m:
             ctx.violation(f"{op}-{'structure' if ('index' in m or 'layout' in m) else 'value'}", f"{op} via {name}: {m}", w)
             continue
